@@ -365,6 +365,7 @@ prop(
         {"test": "TestC06Positive", "checks": 600, "timeout": 400, "thorough": {"checks": 8000, "shards": 10, "timeout": 1700}},
         {"test": "TestC06Negative", "checks": 4000, "timeout": 300, "thorough": {"checks": 60000, "shards": 6, "timeout": 1700}},
         {"test": "TestC06Accessors", "rapid": False, "timeout": 60},
+        {"test": "TestC06Files", "rapid": False, "timeout": 60},
         {"test": "FuzzC06Sniff", "fuzz": "FuzzC06Sniff", "rapid": False, "fuzztime": "120s", "timeout": 600, "mem_gb": 12, "quick": {"skip": True}},
     ],
     floor={"quick": 1000, "thorough": 20000},
